@@ -107,6 +107,17 @@ CHECKS = {
         "quick": {"rapid_checks": 2000, "timeout": 900},
         "thorough": {"rapid_checks": 40000, "timeout": 3000, "shards": 8},
     },
+    "C13": {
+        "pkg": "./checks/c13",
+        "level": "exploration",
+        "assumptions": [
+            "hand-written wrapper components follow the documented pattern (GetChildren then ClearChildren); templ.Join is only called without a block (who would get the block is not specified)",
+            "markers are <b>mN</b> elements and the comparison ignores whitespace (whitespace is C02's business)",
+            "a once handle created with WithComponent renders that component and ignores the call's block",
+        ],
+        "quick": {"rapid_checks": 12, "timeout": 900},
+        "thorough": {"rapid_checks": 60, "timeout": 3000, "shards": 8},
+    },
     "C15": {
         "pkg": "./checks/c15",
         "race": True,
